@@ -78,6 +78,42 @@ def check_chain(decays0, mode="fraction", all_perms=True):
     return fails, n
 
 
+def check_sequences(decays0):
+    """History part: several flatten()/visible_bf calls on the SAME chain object, every ordered pair of stable
+    subsets: each answer must equal the reference, whatever was asked before."""
+    names = sorted(decays0)
+    bfs = {p: Fraction(1, PRIMES[i]) for i, p in enumerate(names)}
+    subs = [p for p in names if p != "P0"]
+    sets = [tuple(c) for r in range(len(subs) + 1) for c in itertools.combinations(subs, r)]
+    fails = []
+    n = 0
+
+    def expected(S):
+        leaves, cnt = chains.flatten("P0", decays0, set(S))
+        bf = 1
+        for p, c in cnt.items():
+            bf = bf * bfs[p] ** c
+        return dict(leaves), bf
+
+    for S1 in sets:
+        for S2 in sets:
+            dc = DecayChain("P0", {p: DecayMode(bfs[p], dict(decays0[p]), model="M" + p) for p in names})
+            seq = [S1, S2, "visible_bf", ()]
+            for step, S in enumerate(seq):
+                n += 1
+                if S == "visible_bf":
+                    got = (None, dc.visible_bf)
+                    exp = (None, expected(())[1])
+                else:
+                    fl = dc.flatten(stable_particles=list(S)) if S else dc.flatten()
+                    got = (dict(fl.decays["P0"].daughters), fl.bf) if fl.ndecays == 1 else ("sub-decays-left", fl.bf)
+                    exp = expected(S)
+                if got != exp:
+                    fails.append(("flatten:depends-on-earlier-calls", f"chain {plain(decays0)}: calls {seq[:step+1]} on one object: the last gives {got}, expected {exp}"))
+                    return fails, n
+    return fails, n
+
+
 def plain(decays0):
     return {p: dict(c) for p, c in decays0.items()}
 
@@ -104,6 +140,13 @@ def work(args):
     ntr = 0
     for d in shapes_list:
         d = {k: collections.Counter(v) for k, v in d.items()}
+        if kind == "sequences":
+            f, n = check_sequences(d)
+            ntr += n
+            for sig, det in f:
+                fails.append(("sequence", {"decays": plain(d)}, sig, det, sum(sum(c.values()) for c in d.values())))
+            outs.add(short_hash([plain(d), "seq"]) if not f else "F")
+            continue
         f, n = check_chain(d, mode, all_perms=all_perms)
         ntr += n
         for sig, det in f:
@@ -114,6 +157,8 @@ def work(args):
 
 def exec_case(kind, payload):
     d = {k: collections.Counter(v) for k, v in payload["decays"].items()}
+    if kind == "sequence":
+        return check_sequences(d)[0]
     return check_chain(d, payload["mode"], all_perms=payload.get("all_perms", True))[0]
 
 
@@ -127,6 +172,11 @@ def run(ctx):
         for mode in (("fraction", "dyadic") if full else ("fraction",)):
             for i in range(0, len(sh), 150):
                 tasks.append(("small", sh[i:i + 150], mode, full))
+    # call sequences on one object: all chains with <=3 decaying particles (<=4 in thorough), every ordered pair of stable sets
+    for k in range(0, 4 if ctx.thorough else 3):
+        sh = [plain(d) for d in shapes.single_chains(k)]
+        for i in range(0, len(sh), 100):
+            tasks.append(("sequences", sh[i:i + 100], "fraction", False))
     deep = [plain(d) for d in deep_chains()] if ctx.thorough else None
     if ctx.thorough:
         nd = len(deep)
